@@ -8,7 +8,8 @@ optimized IR of every `Point::set_decode`, all input bytes symbolic:
   (c) the documented exception: P-256 / secp256k1 accept the one-byte encoding 0x00 and reject
       all-lengths 32 / 64 strings.
 The algebraic half (encode(decode(b)) == b, equality <=> equal encodings, coset independence, maps
-land on the curve) needs field semantics and is engine P's subject; it is not posed here."""
+land on the curve) needs field semantics and is engine P's subject; it is not posed here.
+Equality / neutral tests of every group (all internal representations): props/C06_pred.py."""
 import time
 from engines.llsym.build import build, Driver
 from engines.llsym import terms as T
@@ -306,7 +307,9 @@ def ground_facts(built, curves):
 def run(tier, only=None):
     t0 = time.time()
     curves = [c for c in CURVES if (c in only if only else (tier == "thorough" or c in QUICK))]
-    built = build(drivers(curves), tag="C06-default")
+    from . import C06_pred as PR
+    pcurves = [c for c in PR.C if (c in only if only else True)]
+    built = build(drivers(curves) + PR.drivers(pcurves), tag="C06-default")
     items = [(c, n) for c in curves for n in lengths(c)]
     timeout = 60 if tier == "quick" else 600
 
@@ -324,6 +327,15 @@ def run(tier, only=None):
             obs.append(o)
             if "MachineryError" in str(val):
                 merr = str(val)[-500:]
+    pitems = PR.items(pcurves)
+    pres = pmap(lambda it: PR.check_pred(built, it[0], it[1], timeout), pitems, nproc=NCPU, timeout=timeout * 10)
+    for it, (st, val) in zip(pitems, pres):
+        if st == "ok":
+            obs.extend(val)
+        else:
+            o = Obligation("default:%s.%s" % (it[0], "equals" if it[1] == "eq" else "isneutral"), "L")
+            o.unknown("%s: %s" % (st, str(val)[-300:]))
+            obs.append(o)
     gf, bad = ground_facts(built, curves)
     for c, label, enc, st_, want in bad:
         o = Obligation("default:%s.set_decode:special[%s]" % (c, label), "ground", ["%s::Point::set_decode" % CURVES[c][0]],
@@ -338,7 +350,9 @@ def run(tier, only=None):
                           "method": "claims are proved on over-approximations of the status/point cones (deep sub-terms cut to fresh variables) before the full cone is tried"},
                   assumptions=["LLVM IR semantics of engines/llsym (validated natively each run)",
                                "byte-level format rules transcribed from RFC 8032 / SEC1 / RFC 9496 / the double-odd and GLS254 specifications"],
-                  outside=["algebraic half of the property: encode(decode(b)) == b, equal points <=> equal encodings, "
+                  outside=["that the comparison formulas of C06_pred characterise equality of group elements (RFC 8032 / RFC 9496 / "
+                           "double-odd / GLS254 papers): mathematics, assumed",
+                           "algebraic half of the property: encode(decode(b)) == b, equal points <=> equal encodings, "
                            "coset independence of ristretto255/decaf448/jq255/GLS254 encodings, on-curve and subgroup "
                            "membership tests, byte-to-group maps landing on the curve -- needs field semantics (engine P), not posed",
                            "x = 0 with sign bit 1 (Ed25519/Ed448) and the on-curve test: decided by the square-root status inside the cone, not separated here"],
